@@ -28,7 +28,8 @@ type SMMsg struct {
 	Kind  string `json:"kind"` // cer-ok | cer-no-common-app | cer-no-origin-host | cer-inband | dwr | dwr-state | app
 	HbH   uint32 `json:"hbh"`
 	E2E   uint32 `json:"e2e"`
-	Flags uint8  `json:"flags"` // extra command flag bits besides R (P 0x40, T 0x10)
+	Flags uint8  `json:"flags"`         // extra command flag bits besides R (P 0x40, T 0x10)
+	OSI   bool   `json:"osi,omitempty"` // a CER that carries the peer's Origin-State-Id (42)
 }
 
 type SMCase struct {
@@ -54,7 +55,14 @@ func (m SMMsg) image() []byte {
 	}
 	nodes := []*refcodec.Node{oh, or, {Code: 257, Flags: 0x40, Payload: refcodec.Address(1, []byte{10, 0, 0, 5})},
 		{Code: 266, Flags: 0x40, Payload: refcodec.U32(99)}, {Code: 269, Payload: []byte("peer")}}
+	if m.OSI {
+		nodes = append(nodes, &refcodec.Node{Code: 278, Flags: 0x40, Payload: refcodec.U32(42)})
+	}
 	switch m.Kind {
+	case "cer-ok-vsa":
+		// the application inside a Vendor-Specific-Application-Id whose Vendor-Id is NOT the first member
+		nodes = append(nodes, &refcodec.Node{Code: 260, Flags: 0x40, Group: true, Children: []*refcodec.Node{
+			{Code: 258, Flags: 0x40, Payload: refcodec.U32(16777251)}, {Code: 266, Flags: 0x40, Payload: refcodec.U32(10415)}}})
 	case "cer-ok":
 		nodes = append(nodes, &refcodec.Node{Code: 259, Flags: 0x40, Payload: refcodec.U32(3)}, &refcodec.Node{Code: 258, Flags: 0x40, Payload: refcodec.U32(4)})
 	case "cer-no-common-app":
@@ -169,7 +177,7 @@ func runSM(c SMCase) *ev.Failure {
 
 var smKeepProp = ev.Register(&ev.Prop[SMCase]{
 	ID: "C06", Name: "kept-in-front-of-state-machine",
-	Rule: "a handler that keeps every request stands in front of a server state machine (sm.New, Origin-State-Id configured or not) on an in-memory connection: a CER (accepted, or refused for no common application / missing Origin-Host / inband security), then after an accepted one 0..5 DWRs (with and without Origin-State-Id) and accounting requests answered by an application handler, with generated identifiers and P / T bits. " +
+	Rule: "a handler that keeps every request stands in front of a server state machine (sm.New, Origin-State-Id configured or not) on an in-memory connection: a CER (accepted - applications at top level or inside a Vendor-Specific-Application-Id whose Vendor-Id is not the first member -, or refused for no common application / missing Origin-Host / inband security; with or without the peer's Origin-State-Id), then after an accepted one 0..5 DWRs (with and without Origin-State-Id) and accounting requests answered by an application handler, with generated identifiers and P / T bits. " +
 		"Demanded: right after the state machine handled a request, and again after the connection ended, the kept request has the header and AVP count it was delivered with and serialises to the image the peer sent. non-trivial = the state machine wrote an answer built from a kept request",
 	Gen: func(t *rapid.T) SMCase {
 		var c SMCase
@@ -181,8 +189,9 @@ var smKeepProp = ev.Register(&ev.Prop[SMCase]{
 				rapid.SampledFrom([]uint8{0, 0, 0x40, 0x10, 0x50}).Draw(t, l+"-flags")
 		}
 		h, e, f := ids("cer")
-		c.Msgs = append(c.Msgs, SMMsg{Kind: rapid.SampledFrom([]string{"cer-ok", "cer-ok", "cer-ok", "cer-no-common-app", "cer-no-origin-host", "cer-inband"}).Draw(t, "cer"), HbH: h, E2E: e, Flags: f})
-		if c.Msgs[0].Kind == "cer-ok" {
+		c.Msgs = append(c.Msgs, SMMsg{Kind: rapid.SampledFrom([]string{"cer-ok", "cer-ok", "cer-ok-vsa", "cer-no-common-app", "cer-no-origin-host", "cer-inband"}).Draw(t, "cer"), HbH: h, E2E: e, Flags: f,
+			OSI: rapid.Bool().Draw(t, "cer-origin-state-id")})
+		if c.Msgs[0].Kind == "cer-ok" || c.Msgs[0].Kind == "cer-ok-vsa" {
 			n := rapid.IntRange(0, 5).Draw(t, "requests")
 			for i := 0; i < n; i++ {
 				h, e, f := ids(fmt.Sprintf("req%d", i))
@@ -198,6 +207,9 @@ var smKeepProp = ev.Register(&ev.Prop[SMCase]{
 			cl[m.Kind] = true
 			if m.Flags&0x10 != 0 {
 				cl["t-flag"] = true
+			}
+			if m.OSI {
+				cl["cer-with-origin-state-id"] = true
 			}
 		}
 		if c.StateID != 0 {
